@@ -238,12 +238,78 @@ def rule_seeding(ctx, rid="R15.4"):
     return r
 
 
+URI_TABLE = ["http://x/y", "http://x/y#", "http://x/Y#", "http://x/y#/definitions/a", "urn:a:b#", "", "#", "x/../y", "http://x/a%2Fb",
+             "http://x/a+b?q=1#", "HTTP://x/y", "http://x/y/#a%20b"]
+
+
+def _uridict_eval(prog, c):
+    """URIDict evaluated by sa/tokeval.py: normalize on a table of URIs (the oracle is urlsplit(u).geturl(): an empty fragment
+    goes, nothing else changes) and the three accessors against the inner dict.  -> {clause: None | message} or None."""
+    from urllib.parse import urlsplit
+    from ..tokeval import Ev, Obj, Tok, Undecided, PyRaise
+    ev = Ev(prog, fuel=20000)
+    out = {}
+    try:
+        o = Obj(c, {"store": {}})
+        nm = ev.find_method(c, "normalize")
+        out["normalize"] = None
+        for u in URI_TABLE:
+            got = ev.call_func(nm, [o, u], {})
+            want = urlsplit(u).geturl()
+            if got != want:
+                out["normalize"] = "normalize(%r) = %r, expected %r (only an empty fragment may be dropped)" % (u, got, want)
+                break
+        v1, v2 = Tok("doc1"), Tok("doc2")
+        for name in ("__getitem__", "__setitem__", "__delitem__"):
+            m = ev.find_method(c, name)
+            if m is None:
+                out[name] = "accessor %s vanished" % name
+                continue
+            out[name] = None
+            o = Obj(c, {"store": {}})
+            raw, norm_ = "http://x/y#", ev.call_func(nm, [o, "http://x/y#"], {})
+            if name == "__setitem__":
+                ev.call_func(m, [o, raw, v1], {})
+                if list(o.attrs["store"].items()) != [(norm_, v1)]:
+                    out[name] = "storing under %r leaves the inner dict as %r" % (raw, o.attrs["store"])
+            elif name == "__getitem__":
+                o.attrs["store"][norm_] = v1
+                if ev.call_func(m, [o, raw], {}) is not v1:
+                    out[name] = "lookup of %r does not find the entry filed under %r" % (raw, norm_)
+                try:
+                    ev.call_func(m, [o, "http://other/"], {})
+                    out[name] = "lookup of an absent URI does not raise KeyError"
+                except PyRaise as pr:
+                    if pr.name != "KeyError":
+                        out[name] = "lookup of an absent URI raises %s" % pr.name
+            else:
+                o.attrs["store"][norm_] = v1
+                o.attrs["store"]["http://z/"] = v2
+                ev.call_func(m, [o, raw], {})
+                if list(o.attrs["store"].items()) != [("http://z/", v2)]:
+                    out[name] = "deleting %r leaves the inner dict as %r" % (raw, o.attrs["store"])
+    except Undecided:
+        return None
+    except PyRaise as pr:
+        out["raises"] = "raises %s (%s)" % (pr.name, pr.msg)
+    return out
+
+
 def rule_uridict(ctx, rid="R15.5"):
     prog = ctx.prog
     calls = calls_of(prog)
     c = prog.cls("_utils.URIDict")
     r = ctx.rule(rid, "URIDict normalises the key on every accessor; constructor call sites pass only already-normal keys", floor=5)
+    sem = _uridict_eval(prog, c)
     for name in ("__getitem__", "__setitem__", "__delitem__"):
+        if sem is not None:
+            m = c.methods.get(name)
+            msg = sem.get(name, sem.get("raises"))
+            if msg is None:
+                r.ok(site(m), "goes through normalize() (evaluated against the inner dict)")
+            else:
+                r.fail("%s|raw-key" % (m.qual if m else "_utils.URIDict." + name), site(m) if m else "jsonschema/_utils.py", "%s: %s" % (name, msg))
+            continue
         m = c.methods.get(name)
         if m is None:
             r.fail("_utils.URIDict|missing|%s" % name, "jsonschema/_utils.py URIDict", "accessor %s vanished" % name)
@@ -268,7 +334,12 @@ def rule_uridict(ctx, rid="R15.5"):
     else:
         r.fail("_utils.URIDict|bases|%s" % ",".join(bases), "jsonschema/_utils.py URIDict", "URIDict no longer derives from MutableMapping: membership/get are not routed through __getitem__")
     nm = c.methods.get("normalize")
-    if nm and any(isinstance(n, ast.Return) and norm(n.value) == "urlsplit(%s).geturl()" % nm.params[1] for n in walk_body(nm)):
+    if sem is not None and nm is not None:
+        if sem.get("normalize", sem.get("raises")) is None:
+            r.ok(site(nm), "normalize drops an empty fragment and changes nothing else (table of %d URIs)" % len(URI_TABLE))
+        else:
+            r.fail("_utils.URIDict.normalize|shape", site(nm), sem.get("normalize") or sem.get("raises"))
+    elif nm and any(isinstance(n, ast.Return) and norm(n.value) == "urlsplit(%s).geturl()" % nm.params[1] for n in walk_body(nm)):
         r.ok(site(nm), "normalize = urlsplit(uri).geturl()")
     else:
         r.fail("_utils.URIDict.normalize|shape", site(nm) if nm else "URIDict", "normalize is not urlsplit(uri).geturl()")
